@@ -618,7 +618,7 @@ fn lex_line(
 											break;
 										}
 									}
-									if !is_closed
+									if !is_closed || literal.len() > 6
 									{
 										literal.clear();
 									}
